@@ -73,6 +73,54 @@ def spec_file(t, sex, enc, comps):
     return gdlib.enc_samples(t, sex, comps)
 
 
+def py_payload(rng, t, sex, enc, comps):
+    """the decoded payload of a data file holding comps, produced without the library"""
+    nc = NCOMP[t]
+    if enc == "text":
+        if ISFLOAT[t]:
+            fmt = "%.9g" if CSIZE[t] == 4 else "%.17g"
+            return "".join(";".join(fmt % gdlib.float_value(t, z) for z in comps[i:i + nc]) + "\n" for i in range(0, len(comps), nc)).encode()
+        return "".join("%d\n" % gdlib.int_value(t, z) for z in comps).encode()
+    if enc == "sie":
+        n = len(comps) // nc
+        split = set(i for i in range(n) if rng.random() < 0.2)
+        return gdlib.sie_bytes(t, sex, gdlib.sie_records(t, sex, comps, split))
+    return gdlib.enc_samples(t, sex, comps)
+
+
+def decode_payload(t, sex, enc, payload):
+    """-> (comps, None) or (None, why): a decoded payload read by hand as type t in byte order sex"""
+    import struct
+    nc = NCOMP[t]
+    if enc == "sie":
+        if len(payload) % (8 + TSIZE[t]):
+            return None, "length %d is not a multiple of the record size %d" % (len(payload), 8 + TSIZE[t])
+        recs, exp, inc = gdlib.sie_decode(t, sex, payload)
+        if not inc:
+            return None, "record ends not increasing: %s" % [e for e, _ in recs][:12]
+        return exp, None
+    if enc == "text":
+        out = []
+        try:
+            for line in payload.decode().split("\n")[:-1]:
+                parts = line.split(";")
+                if len(parts) != nc:
+                    return None, "line %r has %d parts" % (line, len(parts))
+                for x in parts:
+                    if ISFLOAT[t]:
+                        out.append(struct.unpack("<I", struct.pack("<f", float(x)))[0] if CSIZE[t] == 4 else struct.unpack("<Q", struct.pack("<d", float(x)))[0])
+                    else:
+                        out.append(int(x) & ((1 << 8 * CSIZE[t]) - 1))
+        except Exception as ex:
+            return None, "unparsable text %r" % (ex,)
+        if payload and not payload.endswith(b"\n"):
+            return None, "last line unterminated"
+        return out, None
+    if len(payload) % TSIZE[t]:
+        return None, "length %d is not a multiple of the sample size %d" % (len(payload), TSIZE[t])
+    return gdlib.dec_samples(t, sex, payload), None
+
+
 def main():
     chk = vlib.Check(PID)
     rng = chk.rng
@@ -314,6 +362,125 @@ def main():
             chk.sample({"direction": "python writes, library discovers and reads", "type": NAMES[t], "endian": sex, "file": "a" + c["ext"],
                         "frameoffset": c["off"], "n": c["n"], "read": r_get[:80], "enc": r_enc})
 
+    # ------------------------------------------------------------------ E: the library REWRITES a data file (python wrote it):
+    # gd_alter_raw / gd_alter_entry / gd_alter_spec with recoding (samples per frame up and down, type change),
+    # gd_alter_endianness (every ordered pair of byte orders of the type, so also ARM-flag-only changes),
+    # gd_alter_encoding, gd_alter_frameoffset, each with the data-moving flag.  After close, the NEW data file is decoded
+    # by hand against the NEW declaration (type, byte order, encoding) -- the library's reader takes no part.
+    import struct as _st
+    ecases = []
+
+    def small_float_comps(t, n):
+        f = (lambda v: _st.unpack("<I", _st.pack("<f", v))[0]) if CSIZE[t] == 4 else (lambda v: _st.unpack("<Q", _st.pack("<d", v))[0])
+        return [f(float(rng.randint(-50, 1000)) / rng.choice([1, 2, 4])) for _ in range(n * NCOMP[t])]
+
+    def e_case(kind, t, sex, enc, off, spf, comps, op, t2, sex2, enc2, want, note):
+        d = os.path.join(root, "e%d" % len(ecases)); os.mkdir(d)
+        with open(os.path.join(d, "format"), "w") as fh:
+            fh.write("/ENCODING %s\n%s\n/FRAMEOFFSET %d\na RAW %s %d\n" % (enc, gdlib.sex_directive(sex), off, NAMES[t], spf))
+        with open(os.path.join(d, "a" + EXT[enc]), "wb") as fh:
+            fh.write(gdlib.container_encode(enc, py_payload(rng, t, sex, enc, comps)))
+        ecases.append({"kind": kind, "dir": d, "t": t, "sex": sex, "enc": enc, "off": off, "spf": spf, "comps": comps, "op": op,
+                       "t2": t2, "sex2": sex2, "enc2": enc2, "want": want, "note": note,
+                       "script": ["open %s rw" % d, op, "close"]})
+
+    def e_values(t, n, text):
+        if text and ISFLOAT[t]:
+            return small_float_comps(t, n)
+        return gen_comps(rng, t, n, rng.choice(["runs", "random", "special"]), for_text=text)
+
+    multi = [3, 4, 5, 7, 8, 9, 10, 11]
+    callers = ["alter_raw a %d %d 1", "alter_entry a %d %d 1"]
+    for enc in ENCS:
+        text = enc == "text"
+        # samples per frame, up and down; whole frames and a trailing partial frame
+        for (o, nn) in ((1, 2), (1, 3), (2, 3), (2, 1), (3, 2), (4, 1), (2, 5)):
+            for rep in range(2 if not chk.thorough else 6):
+                # (one frame fits the 64-byte copy buffer of hook H1; a frame larger than the buffer is C13's finding)
+                t = rng.choice([x for x in multi if TSIZE[x] * max(o, nn) <= 64]); sx = gdlib.sexes_for(t)
+                sex = rng.choice([x for x in sx if x != "l"]) if rep == 0 else rng.choice(sx)
+                nf = rng.choice([3, 9, 20, 33]); part = rng.randint(0, o - 1)
+                comps = e_values(t, nf * o + part, text)
+                nc = NCOMP[t]
+                smp = [comps[i * nc:(i + 1) * nc] for i in range(nf * o + part)]
+                wsm = [smp[q * o + j * o // nn] for q in range(nf) for j in range(nn)] + [smp[nf * o + j * o // nn] for j in range(part * nn // o)]
+                which = rng.randrange(3)
+                op = callers[which] % (-1, nn) if which < 2 else "alter_spec 1 a RAW %s %d" % (NAMES[t], nn)
+                e_case("spf", t, sex, enc, rng.choice([0, 2]), o, comps, op, t, sex, enc, [x for v in wsm for x in v], "%d->%d" % (o, nn))
+        # type change: unsigned integers (value mod 2^bits), and the exact widenings FLOAT32->FLOAT64, COMPLEX64->COMPLEX128
+        for (t, t2) in ((3, 7), (7, 3), (5, 1), (1, 5), (3, 5), (8, 9), (10, 11)):
+            for sex in gdlib.sexes_for(t2) if not ISFLOAT[t] else ["l", "b"]:
+                if sex not in gdlib.sexes_for(t2):
+                    continue
+                n = rng.choice([5, 17, 40])
+                comps = e_values(t, n, text) if not ISFLOAT[t] else small_float_comps(t, n)
+                if ISFLOAT[t]:
+                    want = [_st.unpack("<Q", _st.pack("<d", _st.unpack("<f", _st.pack("<I", z))[0]))[0] for z in comps]
+                else:
+                    want = [z & ((1 << 8 * CSIZE[t2]) - 1) for z in comps]
+                which = rng.randrange(3)
+                op = callers[which] % (t2, 0) if which < 2 else "alter_spec 1 a RAW %s 2" % NAMES[t2]
+                e_case("type", t, sex, enc, 0, 2, comps, op, t2, sex, enc, want, "%s->%s" % (NAMES[t], NAMES[t2]))
+        # byte order: every ordered pair (FLOAT64/COMPLEX128: the ARM flag alone, too)
+        for t in [9, 11] + rng.sample([3, 4, 7, 8, 10], 2):
+            sx = gdlib.sexes_for(t)
+            for s1 in sx:
+                for s2 in sx:
+                    if s1 == s2:
+                        continue
+                    comps = e_values(t, rng.choice([4, 11, 30]), text)
+                    e_case("endianness", t, s1, enc, rng.choice([0, 1]), 1, comps,
+                           "alter_endianness %s %d 0 1" % ("big" if "b" in s2 else "little", 1 if "a" in s2 else 0), t, s2, enc, comps, "%s->%s" % (s1, s2))
+        # encoding
+        for enc2 in ENCS:
+            if enc2 == enc:
+                continue
+            t = rng.choice(multi); sex = rng.choice(gdlib.sexes_for(t))
+            comps = e_values(t, rng.choice([3, 16, 35]), "text" in (enc, enc2))
+            e_case("encoding", t, sex, enc, rng.choice([0, 1]), rng.choice([1, 2]), comps, "alter_encoding %s 0 1" % enc2, t, sex, enc2, comps, "%s->%s" % (enc, enc2))
+        # frame offset
+        for (o1, o2) in ((0, 2), (3, 1), (1, 0)):
+            t = rng.choice(multi); sex = rng.choice(gdlib.sexes_for(t)); spf = rng.choice([1, 2])
+            comps = e_values(t, spf * rng.choice([5, 12]), text)
+            nc = NCOMP[t]
+            want = [0] * ((o1 - o2) * spf * nc) + comps if o2 < o1 else comps[(o2 - o1) * spf * nc:]
+            e_case("frameoffset", t, sex, enc, o1, spf, comps, "alter_frameoffset %d 0 1" % o2, t, sex, enc, want, "%d->%d" % (o1, o2))
+    from concurrent.futures import ThreadPoolExecutor
+    with ThreadPoolExecutor(max_workers=vlib.NPROC) as ex_:
+        eouts = list(ex_.map(lambda c: vlib.sh([exe], inp=("\n".join(c["script"]) + "\n").encode(), timeout=300), ecases))
+    for c, (rc_, out_) in zip(ecases, eouts):
+        chk.cov["evaluations"] += 1
+        t, t2, sex2, enc2 = c["t"], c["t2"], c["sex2"], c["enc2"]
+        key = "rewrite/%s/%s" % (c["kind"], c["enc"])
+        r = out_.rstrip("\n").split("\n")
+        ctx = "%s %s %s spf %d, %s (%s)" % (NAMES[t], c["sex"], c["enc"], c["spf"], c["op"], c["note"])
+        if rc_ != 0 or len(r) != 3:
+            spec_bad.setdefault(key, []).append((c, "%s: gdrun died rc=%d: %s" % (ctx, rc_, out_[-200:])))
+            continue
+        if r[0] != "open 0" or r[1].split()[1:] != ["0", "0"] or r[2] != "close 0":
+            spec_bad.setdefault(key, []).append((c, "%s: calls failed: %s" % (ctx, " | ".join(r))))
+            continue
+        raw = gdlib.read_field_file(c["dir"], "a", enc2)
+        stray = sorted(f for f in os.listdir(c["dir"]) if f not in ("format", "a" + EXT[enc2]))
+        if raw is None or stray:
+            spec_bad.setdefault(key, []).append((c, "%s: directory holds %s afterwards, expected format and a%s only" % (ctx, sorted(os.listdir(c["dir"])), EXT[enc2])))
+            continue
+        try:
+            payload = gdlib.container_decode(enc2, raw)
+        except Exception as ex:
+            spec_bad.setdefault(key, []).append((c, "%s: stock decoder rejects the rewritten stream: %r" % (ctx, ex)))
+            continue
+        got, why = decode_payload(t2, sex2, enc2, payload)
+        if got is None:
+            spec_bad.setdefault(key, []).append((c, "%s: rewritten a%s is malformed: %s" % (ctx, EXT[enc2], why)))
+        elif got != c["want"]:
+            spec_bad.setdefault(key, []).append((c, "%s: rewritten a%s read by hand as %s %s holds %s, expected %s (payload %s)" % (
+                ctx, EXT[enc2], NAMES[t2], sex2, gdlib.hexs(got)[:160], gdlib.hexs(c["want"])[:160], payload.hex()[:120])))
+        else:
+            nontriv.add((c["kind"], t, c["sex"], c["enc"], c["op"], payload))
+            if len(chk.cov["samples"]) < 8 and chk.cov["evaluations"] % 53 == 7:
+                chk.sample({"direction": "library rewrites", "type": NAMES[t], "endian": c["sex"], "encoding": c["enc"], "op": c["op"], "payload_hex": payload.hex()[:64]})
+
     # ------------------------------------------------------------------ C: _GD_FixEndianness vs model, all flag pairs
     flagsets = ["0", "l", "b", "lb", "a", "la", "ba", "lba"]
     script, mlines = [], []
@@ -388,7 +555,7 @@ def main():
                        "discovers, sizes and reads them; compared with the samples and with the model's decoder.  _GD_FixEndianness vs the "
                        "model on %d (type, old flags, new flags) triples over all 8x8 flag words.  non-trivial = distinct (type, order, "
                        "encoding, payload) other than native unencoded from frame 0") % (nwrite, len(rcases), nfix)
-    chk.cov["input_distribution"] = {"write_cases": nwrite, "read_cases": len(rcases), "fixend_cases": nfix,
+    chk.cov["input_distribution"] = {"write_cases": nwrite, "read_cases": len(rcases), "fixend_cases": nfix, "rewrite_cases": len(ecases),
                                      "by_encoding_write": {e: sum(1 for c in cases if c["enc"] == e) for e in ENCS}}
     if trans_problems and not found_any:
         chk.violation("translator", "translator cannot read src/encoding.c: " + "; ".join(trans_problems[:3]),
